@@ -241,16 +241,34 @@ pub fn run(ctx: &mut Ctx) {
             let wave_len = if (idx + gi) % 2 == 0 {
                 e.synthesize(labels.clone()).map(|w| w.len()).unwrap_or(usize::MAX)
             } else {
+                // (zero-length segments and blank entries between the labels included; plain
+                // lines as well; handed over as Vec<String>, &[String] or &[&str])
                 let mut t = 0u64;
-                let lines: Vec<String> = labels
-                    .iter()
-                    .map(|l| {
-                        let a = t;
+                let plain = rng.chance(0.3);
+                let mut lines: Vec<String> = Vec::new();
+                for l in labels.iter() {
+                    if rng.chance(0.15) {
+                        lines.push(String::new());
+                    }
+                    if plain {
+                        lines.push(l.to_string());
+                        continue;
+                    }
+                    let a = t;
+                    if !rng.chance(0.2) {
                         t += rng.range(100_000, 2_000_000) as u64;
-                        format!("{} {} {}", a, t, l)
-                    })
-                    .collect();
-                e.synthesize(lines).map(|w| w.len()).unwrap_or(usize::MAX)
+                    }
+                    lines.push(format!("{} {} {}", a, t, l));
+                }
+                let r = match rng.below(3) {
+                    0 => e.synthesize(lines),
+                    1 => e.synthesize(&lines[..]),
+                    _ => {
+                        let refs: Vec<&str> = lines.iter().map(|x| x.as_str()).collect();
+                        e.synthesize(&refs[..])
+                    }
+                };
+                r.map(|w| w.len()).unwrap_or(usize::MAX)
             };
             if wave_len != total * e.condition.get_fperiod() {
                 ctx.violation("length-not-frames-times-fperiod", J::obj().set("len", wave_len).set("frames", total));
